@@ -5,6 +5,7 @@ import numpy as np
 from scipy.stats import norm
 
 from bounded.lib import Result, load_known, VERIF
+from bounded import catalog as C
 
 REPLAY = '''import sys, warnings
 warnings.filterwarnings("ignore")
@@ -178,4 +179,15 @@ def run(tier, seed, repo, focus=None):
                 if msg:
                     res.violation("NNDVI: " + msg, REPLAY % dict(verif=VERIF, scn=scn, which="nndvi"), known)
     res.sample({"check": "NN space partitioner", "scenario": {"n1": 3, "n2": 1, "k": 2, "kind": "cont"}})
+    # the decisions are about the observations that were SUPPLIED: a caller that re-uses / overwrites its buffers after each
+    # call must get the same outputs as one that passes private copies (the aliasing scenarios of C15, run here for NNDVI)
+    from bounded import drivers as _drv
+    _scns = []
+    for _name in ['NNDVI']:
+        _d = C.DETECTORS[_name]
+        for _v in range(len(_d["variants"]) if not quick else 1):
+            for _mode in ("c", "view", "df"):
+                _scns.append({"det": _name, "variant": _v, "seed": seed, "n": 8, "mode": _mode})
+    _drv.run_scenarios(res, "no_alias", _scns, known)
+    _drv.run_scenarios(res, "no_alias_reref", [dict(x, n=9, reref=[3, 6]) for x in _scns], known)
     return res.finish()
